@@ -25,7 +25,8 @@ ASSUMPTIONS = ['simulated device implements the firmware param protocol (read/wr
 REQUIRED = ['mon.writes_checked', 'mon.refused_checked', 'mon.value_replies', 'mon.callback_invocations',
             'mon.misc_replies', 'mon.one_outstanding_pairs', 'mon.precedence_pairs', 'mon.notifications',
             'mon.multi_outstanding_misc_cases', 'mon.v1_cases', 'mon.state_queries_answered_enoent',
-            'mon.instant_reply_cases_with_statement_level_preemption', 'mon.additional_listeners_checked']
+            'mon.instant_reply_cases_with_statement_level_preemption', 'mon.additional_listeners_checked',
+            'mon.cases_with_replies_delayed_by_seconds']
 DESC_TIMEOUT = 900
 
 FLOATS = [0.0, -0.0, 1.5, -2.25, float('inf'), float('-inf'), float('nan'), 1e-45, 3.4028234663852886e38, 1e39,
@@ -40,7 +41,7 @@ def cases(tier, seed):
         proto = rnd.choice((10, 10, 10, 7, 4, 3, 0))
         out.append({'seed': seed * 1000003 + i, 'proto': proto, 'nparam': rnd.randint(3, 14),
                     'threads': rnd.randint(1, 4), 'ops': rnd.randint(1, 40 if i % 3 else 12),
-                    'maxdelay': rnd.choice((0.0, 0.01, 0.5)), 'sched': rnd.choice(('rtb', 'random', 'random', 'pct')),
+                    'maxdelay': rnd.choice((0.0, 0.01, 0.5, 3.0)), 'sched': rnd.choice(('rtb', 'random', 'random', 'pct')),
                     'line_p': rnd.choice((0.0, 0.0, 0.05, 0.25)), 'misc_burst': i % 4 == 0})
     return out
 
@@ -162,7 +163,7 @@ def run(desc, ctx):
         cf.fully_connected.add_callback(lambda u: done.set())
         cf.connection_failed.add_callback(lambda *a: done.set())
         cf.open_link(uri)
-        if not done.wait(200.0) or cf.param.is_updated is not True:
+        if not done.wait(600.0) or cf.param.is_updated is not True:
             ob['problems'].append('never fully connected')
             return
         s.sleep(0.2)
@@ -262,6 +263,8 @@ def run(desc, ctx):
         ctx.count('mon.v1_cases')
     if instant:
         ctx.count('mon.instant_reply_cases_with_statement_level_preemption')
+    if desc['maxdelay'] >= 3.0:
+        ctx.count('mon.cases_with_replies_delayed_by_seconds')
     idfmt = '<H' if v2 else '<B'
     idlen = 2 if v2 else 1
     tx = [t for t in spec.tx[ob['t0_tx']:] if (t[2] >> 4) & 0xF == 2]
